@@ -157,10 +157,19 @@ structure Down where
   body : Bytes := []
 deriving Repr, BEq, DecidableEq
 
+/-- 1xx: an informational response; the final status line is still to come. (The real server sends it and
+carries on; `httptest.ResponseRecorder` has no such notion, so 1xx codes are only generated on the real-server
+layer. 101 is never generated.) -/
+def informational (code : Nat) : Bool := 100 ≤ code && code ≤ 199
+
 def Down.writeHeader (d : Down) (h : Hdr) (code : Nat) : Down :=
   match d.status with
   | some _ => d
-  | none => { d with status := some code, sent := h }
+  | none => if informational code then d else { d with status := some code, sent := h }
+
+/-- `Flush()` of the downstream writer (net/http and the recorder alike): commits status 200 and the header
+map as it is — without content sniffing — unless the status line is already out. -/
+def Down.flush (d : Down) (h : Hdr) : Down := d.writeHeader h 200
 
 /-- a `Write` before any `WriteHeader`: status 200, and a missing Content-Type is sniffed into the outgoing
 header (not into the handler's live map). -/
@@ -192,6 +201,8 @@ inductive Op where
   | del (k : String)
   | wh (code : Nat)
   | w (b : Bytes)
+  /-- `if f, ok := w.(http.Flusher); ok { f.Flush() }` -/
+  | fl
 deriving Repr, BEq, DecidableEq
 
 /-- effect of an operation on the live header map. -/
@@ -208,13 +219,15 @@ def writesOf : List Op → List Bytes
   | .w b :: r => b :: writesOf r
   | _ :: r => writesOf r
 
-/-- the handler talking to the bare ResponseWriter. -/
-def bareStep {Z} (C : Cfg Z) (s : Hdr × Down) : Op → Hdr × Down
+/-- the handler talking to the bare ResponseWriter; `cf` = the writer it is given implements `http.Flusher`. -/
+def bareStep {Z} (C : Cfg Z) (cf : Bool) (s : Hdr × Down) : Op → Hdr × Down
   | .wh c => (s.1, s.2.writeHeader s.1 c)
   | .w b => (s.1, s.2.write C s.1 b)
+  | .fl => if cf then (s.1, s.2.flush s.1) else s
   | o => (hop o s.1, s.2)
 
-def bareRun {Z} (C : Cfg Z) (s : Hdr × Down) (ops : List Op) : Hdr × Down := ops.foldl (bareStep C) s
+def bareRun {Z} (C : Cfg Z) (cf : Bool) (s : Hdr × Down) (ops : List Op) : Hdr × Down :=
+  ops.foldl (bareStep C cf) s
 
 /-! ### GzipResponseWriter -/
 
@@ -247,8 +260,9 @@ def poolGet {Z} (fresh : Z) : List Z → Z × List Z
   | [] => (fresh, [])
   | z :: p => (z, p)
 
-/-- `grw.WriteHeader(code)`. -/
+/-- `grw.WriteHeader(code)`: an informational status is passed on without taking the decision. -/
 def GW.writeHeader {Z} (C : Cfg Z) (s : GW Z) (code : Nat) : GW Z :=
+  if informational code then { s with down := s.down.writeHeader s.hdr code } else
   match s.dec with
   | .undecided =>
     if bodyAllowedForStatus code && isCompressable C s.hdr then
@@ -282,6 +296,10 @@ def GW.close {Z} (C : Cfg Z) (s : GW Z) : GW Z :=
 def GW.step {Z} (C : Cfg Z) (s : GW Z) : Op → GW Z
   | .wh c => GW.writeHeader C s c
   | .w b => GW.write C s b
+  /- `*GzipResponseWriter` has no `Flush` method (its method set is pinned by the facts) and the embedded
+     `http.ResponseWriter` is an interface value, so the handler's type assertion to `http.Flusher` fails and
+     nothing happens: a flush can neither commit headers early nor move bytes. -/
+  | .fl => s
   | o => { s with hdr := hop o s.hdr }
 
 def GW.run {Z} (C : Cfg Z) (s : GW Z) (ops : List Op) : GW Z := ops.foldl (GW.step C) s
@@ -295,33 +313,39 @@ structure Served (Z : Type) where
 
 /-- The handler returned by `NewGzipHandler(h, contentTypes)` serving one request: `h0` is the response
 header map as it arrives (empty unless an outer layer has put something in), `head` says the method is HEAD,
-`ops` is what the wrapped handler does. -/
-def serve {Z} (C : Cfg Z) (head : Bool) (req : Hdr) (h0 : Hdr) (pool : List Z) (ops : List Op) : Served Z :=
+`dfl` that the downstream writer implements `http.Flusher`, `ops` is what the wrapped handler does. -/
+def serve {Z} (C : Cfg Z) (head : Bool) (dfl : Bool) (req : Hdr) (h0 : Hdr) (pool : List Z) (ops : List Op) : Served Z :=
   let h1 := hadd h0 hVary hAcceptEncoding
   if acceptsGzip req && !head then
     let s := GW.close C (GW.run C { dec := .undecided, hdr := h1, down := {}, pool := pool } ops)
     { compressed := s.dec.isGzip, obs := s.down.obs s.hdr, pool := s.pool }
   else
-    let r := bareRun C (h1, {}) ops
+    let r := bareRun C dfl (h1, {}) ops
     { compressed := false, obs := r.2.obs r.1, pool := pool }
 
 /-- the same script against the bare downstream writer (with the `Vary` line the handler adds). -/
-def serveBare {Z} (C : Cfg Z) (h0 : Hdr) (ops : List Op) : Obs :=
-  let r := bareRun C (hadd h0 hVary hAcceptEncoding, {}) ops
+def serveBare {Z} (C : Cfg Z) (cf : Bool) (h0 : Hdr) (ops : List Op) : Obs :=
+  let r := bareRun C cf (hadd h0 hVary hAcceptEncoding, {}) ops
   r.2.obs r.1
 
-/-- Header map and status at the first `WriteHeader`/`Write` of the script (after the Content-Type fill-in
-of an implicit write); `none` when the handler never writes. -/
-def decision {Z} (C : Cfg Z) (h : Hdr) : List Op → Option (Hdr × Nat)
+/-- does the handler get a `Flusher`? Behind the gzip writer: no; otherwise whatever the downstream offers. -/
+def flusherOffered (head dfl : Bool) (req : Hdr) : Bool := if acceptsGzip req && !head then false else dfl
+
+/-- Header map and status at the first non-informational `WriteHeader`, `Write` or effective `Flush` of the
+script (after the Content-Type fill-in of an implicit write); `none` when the handler never does any. -/
+def decision {Z} (C : Cfg Z) (cf : Bool) (h : Hdr) : List Op → Option (Hdr × Nat)
   | [] => none
-  | .wh c :: _ => some (h, c)
+  | .wh c :: r => if informational c then decision C cf h r else some (h, c)
   | .w b :: _ => some (if hhasRaw h hContentType then h else hset h hContentType (C.sniff b), 200)
-  | o :: r => decision C (hop o h) r
+  | .fl :: r => if cf then some (h, 200) else decision C cf h r
+  | .set k v :: r => decision C cf (hset h k v) r
+  | .add k v :: r => decision C cf (hadd h k v) r
+  | .del k :: r => decision C cf (hdel h k) r
 
 /-- The conditions under which the code compresses. -/
 def shouldCompress {Z} (C : Cfg Z) (head : Bool) (req : Hdr) (h0 : Hdr) (ops : List Op) : Bool :=
   acceptsGzip req && !head &&
-    match decision C (hadd h0 hVary hAcceptEncoding) ops with
+    match decision C false (hadd h0 hVary hAcceptEncoding) ops with
     | some (h, c) => bodyAllowedForStatus c && hget h hContentEncoding == "" && C.typeOk (hget h hContentType)
     | none => false
 
